@@ -3,6 +3,8 @@ extern crate std;
 #[allow(unused_imports)]
 use std::{vec, vec::Vec};
 use super::*;
+#[allow(unused_imports)]
+use crate::options::{Orientation, Rotation};
 use crate::vk_support::*;
 
 fn deg(r: Rotation) -> i64 {
